@@ -14,8 +14,8 @@
    Part 2: maps_in_sync - proved under oracle freshness.  Part 3: progress - the invariant
    no_orphans is proved for the repaired configuration and refuted for the pinned behaviour
    (D2a); the counters that bound retransmission by timeouts are proved (timeout_bounded_partial).
-   NOT proved: "never neither" as a liveness statement (drain: firing the armed timers empties
-   pending and active), the per-key datagram count over a run (wire_bound) and timeout_justified.
+   Part 4: wire_bound (the per-key datagram count over a whole run) and timeout_justified - proved
+   (Proofs/HandlerA_Wire*.v).
 
    Part 1 (this section): "never two, never both" - at most one terminal event per request id and
    nothing after it.  Hypothesis: the request ids are fresh, i.e. the ids the application submits
@@ -28,7 +28,8 @@
    of its step).  [C04_nonterminal_response_is_partial_nodes] ties this to the content. *)
 From Coq Require Import List Arith NArith Bool.
 From Discv5V Require Import Model.Handler Proofs.HandlerInv Proofs.HandlerA_Ledger Proofs.HandlerA_Nonce
-  Proofs.HandlerA_Progress.
+  Proofs.HandlerA_Progress Proofs.HandlerB_Trace3 Proofs.HandlerA_Wire2 Proofs.HandlerA_Wire3 Proofs.HandlerA_Wire4
+  Proofs.HandlerA_Wire.
 Import ListNotations.
 
 (* [all_rids h]: the ids of the requests held in the active requests and in the pending queues;
@@ -189,8 +190,8 @@ Theorem C04_no_orphans :
 Proof. intros c evs (_ & D2 & _). exact (no_orphans c evs D2). Qed.
 Print Assumptions C04_no_orphans.
 
-(* timeout_bounded (partial: the statement about the number of datagrams per request and session
-   key over a whole run - wire_bound - and timeout_justified are not proved).  What is proved: the
+(* timeout_bounded (the counters; the statement about the number of datagrams per request and session
+   key over a whole run - wire_bound - and timeout_justified are Part 4 below).  What is proved here: the
    transmission counter of every stored request stays within [1, max 1 retries]; the timeout
    handler sends nothing and fails the request when the counter has reached retries, and otherwise
    sends exactly one copy of the stored packet and increments the counter.  So a stored packet is
@@ -229,3 +230,111 @@ Example C04_no_orphans_instance :
    pending h = [] /\ map rc_rid (concat (map snd (active h))) = [101%N]).
 Proof. split; [exact no_orphans_example|exact fixed_no_orphan]. Qed.
 Print Assumptions C04_no_orphans_instance.
+
+(* ------------------------------------------------------------------------------------------ *)
+(* Part 4: "A request is put on the wire at most 1+retries times per session key, and a timeout is
+   reported only if some request to that peer really went unanswered for a full timeout period."
+
+   wire_bound.  [req_datagrams rid k W]: the number of datagrams in W that carry request id rid
+   encrypted under key k - message packets [PMsg _ _ _ (CEnc k _ (MReq rid _) _)] and handshake packets
+   [PHs ... (CEnc k _ (MReq rid _) _)] alike.  Over ALL datagrams of a run, for every configuration:
+   at most max 1 retries (tight, [wire_bound_reached]), hence at most 1 + retries.
+   Hypotheses, both shown necessary by examples in Proofs/HandlerA_Wire.v: the request ids of the run are
+   fresh ([NoDup (run_new_ids evs)]: a statement about the application and rand), and key terms are
+   not installed twice ([fresh_installs]: a statement about the ephemeral keys and challenge data
+   drawn, see C19).  No freshness of nonces is needed: the count is attached to the (id, key) pair the
+   stored packet carries. *)
+Theorem C04_wire_bound :
+  forall c evs rid k,
+  NoDup (run_new_ids evs) -> fresh_installs c init_state [] evs ->
+  req_datagrams rid k (concat (snd (run c init_state evs))) <= N.to_nat (N.max 1 (cfg_retries c)).
+Proof. exact wire_bound. Qed.
+Print Assumptions C04_wire_bound.
+
+Theorem C04_wire_bound_property_text :
+  forall c evs rid k,
+  NoDup (run_new_ids evs) -> fresh_installs c init_state [] evs ->
+  req_datagrams rid k (concat (snd (run c init_state evs))) <= 1 + N.to_nat (cfg_retries c).
+Proof. exact wire_bound_property_text. Qed.
+Print Assumptions C04_wire_bound_property_text.
+
+(* the companion for the random packet a request without session is sent as (it carries no request
+   under any key and is identified by its nonce).  Hypotheses about rand only: the nonces drawn in
+   the run are pairwise distinct, no step exhausts its draws. *)
+Theorem C04_random_packet_bound :
+  forall c evs n,
+  NoDup (run_pool evs) -> draws_suffice c init_state evs ->
+  random_datagrams n (concat (snd (run c init_state evs))) <= N.to_nat (N.max 1 (cfg_retries c)).
+Proof. exact random_bound. Qed.
+Print Assumptions C04_random_packet_bound.
+
+(* the hypotheses are satisfiable and the bound is reached: in the example run request 101 is sent
+   exactly retries = 2 times under the session key and then fails with a timeout; each hypothesis
+   of wire_bound is needed: the same id submitted twice gives 4 datagrams for one (id, key) pair, the
+   same key term installed twice gives 3 *)
+Example C04_wire_bound_reached :
+  NoDup (run_new_ids ex_outcome_events) /\ fresh_installs (ex_cfg true) init_state [] ex_outcome_events /\
+  let W := concat (snd (run (ex_cfg true) init_state ex_outcome_events)) in
+  req_datagrams 101%N ex_ke W = N.to_nat (N.max 1 (cfg_retries (ex_cfg true))) /\
+  last W (OEvent (HRequestFailed 0%N 1%N)) = OEvent (HRequestFailed 101%N ERR_TIMEOUT).
+Proof. destruct wire_bound_reached as (A & B & C & _ & D). split; [exact A|split; [exact B|split; [exact C|exact D]]]. Qed.
+Print Assumptions C04_wire_bound_reached.
+
+Example C04_wire_bound_hypotheses_needed :
+  (~ NoDup (run_new_ids ex_dup_events) /\ fresh_installs (ex_cfg true) init_state [] ex_dup_events /\
+   req_datagrams 101%N ex_ke (concat (snd (run (ex_cfg true) init_state ex_dup_events))) = 4) /\
+  (NoDup (run_new_ids ex_rekey_events) /\ ~ fresh_installs (ex_cfg true) init_state [] ex_rekey_events /\
+   req_datagrams 101%N ex_ke (concat (snd (run (ex_cfg true) init_state ex_rekey_events))) = 3).
+Proof. split; [exact wire_bound_needs_fresh_ids|exact wire_bound_needs_fresh_installs]. Qed.
+Print Assumptions C04_wire_bound_hypotheses_needed.
+
+(* timeout_justified.  If a step at time [now] reports RequestFailed(rid, Timeout), then rid is a
+   request (active or queued) to a node address na held before the step, and there is a timer
+   (n, na, t0 + timeout) to that SAME node address whose full period has passed (t0 + timeout < now)
+   and which - first disjunct - was armed by an earlier step at time t0 and has been in the nonce map
+   after every step since (an answer would have removed it), or - second disjunct, only with a clock
+   grid - was armed earlier in the timer stream of the reporting step itself.  No hypothesis on the
+   run.  (The reported request may be another request to that peer: fail_session fails the peer's
+   other active and queued requests with the same error.) *)
+Theorem C04_timeout_justified :
+  forall c pre e now d rid,
+  let h := fst (run c init_state pre) in
+  In (OEvent (HRequestFailed rid ERR_TIMEOUT)) (snd (step c h e now d)) ->
+  exists n na t0,
+    (t0 + cfg_timeout c < now)%N /\ request_to h rid na /\
+    ((exists pre1 e1 t1 d1 mid,
+        pre = pre1 ++ (e1, t1, d1) :: mid /\
+        (t0 = t1 \/ exists d0, (d0 < t1)%N /\ t0 = fire_time c d0 t1) /\
+        forall mid1 mid2, mid = mid1 ++ mid2 ->
+          In (n, na, (t0 + cfg_timeout c)%N) (nmap (fst (run c init_state (pre1 ++ (e1, t1, d1) :: mid1)))))
+     \/ (exists d0, (d0 < now)%N /\ t0 = fire_time c d0 now)).
+Proof. exact timeout_justified. Qed.
+Print Assumptions C04_timeout_justified.
+
+(* with fresh nonces the request that owns the timer is stored under that node address at every one
+   of those states (no clock grid: times are the step times) *)
+Theorem C04_timeout_justified_request_stored :
+  forall c pre e now d rid,
+  cfg_grid c = 0%N -> fresh_run c init_state pre ->
+  let h := fst (run c init_state pre) in
+  In (OEvent (HRequestFailed rid ERR_TIMEOUT)) (snd (step c h e now d)) ->
+  exists n na pre1 e1 t1 d1 mid,
+    pre = pre1 ++ (e1, t1, d1) :: mid /\ (t1 + cfg_timeout c < now)%N /\ request_to h rid na /\
+    forall mid1 mid2, mid = mid1 ++ mid2 ->
+      let hm := fst (run c init_state (pre1 ++ (e1, t1, d1) :: mid1)) in
+      In (n, na, (t1 + cfg_timeout c)%N) (nmap hm) /\
+      exists l r, alist_get na (active hm) = Some l /\ In r l /\ rc_nonce r = n /\ c_naddr (rc_contact r) = na.
+Proof. exact timeout_justified_request_stored. Qed.
+Print Assumptions C04_timeout_justified_request_stored.
+
+(* non-trivial instance: request 101 of the example run times out at 10000; its timer was armed by
+   the tick at 5000 (retransmission) *)
+Example C04_timeout_justified_instance :
+  cfg_grid (ex_cfg true) = 0%N /\ fresh_run (ex_cfg true) init_state ex_timeout_events /\
+  let h := fst (run (ex_cfg true) init_state ex_timeout_events) in
+  snd (step (ex_cfg true) h EvTick 10000%N (ex_draws2 110%N)) = [OEvent (HRequestFailed 101%N ERR_TIMEOUT)] /\
+  request_to h 101%N (2%N, 20%N).
+Proof.
+  destruct timeout_justified_instance as (A & B & C & _ & _ & D). split; [exact A|split; [exact B|split; [exact C|exact D]]].
+Qed.
+Print Assumptions C04_timeout_justified_instance.
